@@ -24,9 +24,11 @@ ASSUMPTIONS = [
     'Keyword subtree for keyword_case; exactly Name or String.Symbol not '
     'starting with a double quote for identifier_case; String.Single for '
     'truncation; Comment subtree minus the Hint types for strip_comments',
-    'literals containing a doubled quote or a backslash are a labelled '
-    'class (known finding D10: the cut can fall inside the doubled quote or '
-    'directly behind a backslash, which then escapes the closing quote)',
+    'truncation: "the first N characters" where the N-th character lies '
+    "inside an escape sequence ('' or a backslash and the character behind "
+    'it) means a cut directly behind or directly in front of that sequence '
+    '(a cut through it splits the literal, which the property excludes); '
+    'the repaired filter cuts behind it (D10, fixed)',
 ]
 
 
@@ -42,8 +44,11 @@ def is_hint(tt):
     return tt in T.Comment.Single.Hint or tt in T.Comment.Multiline.Hint
 
 
-def expected_stream(src, opts):
-    """Expected significant-token stream of the output, from the input's."""
+def expected_stream(src, opts, cut_before=False):
+    """Expected significant-token stream of the output, from the input's.
+    cut_before: where the n-th character lies inside an escape sequence the
+    cut is made in front of it instead of behind it (both keep the literal
+    one token; the property cannot mean a cut through the sequence)."""
     out = []
     targets = 0
     d10 = False
@@ -70,10 +75,22 @@ def expected_stream(src, opts):
             n = opts['truncate_strings']
             inner = v[1:-1]
             if len(inner) > n:
-                if "''" in v[1:-1] or v[:2] == "''" or '\\' in v:
-                    d10 = True
+                # the first n characters; an escape sequence ('' or a
+                # backslash with the character behind it) is never cut in
+                # half, the cut moves behind it
+                units, i = [], 0
+                while i < len(inner):
+                    step = 2 if inner[i] in ("'", '\\') else 1
+                    units.append(inner[i:i + step])
+                    i += step
+                cut = ''
+                for u in units:
+                    if len(cut) >= n or (cut_before
+                                         and len(cut) + len(u) > n):
+                        break
+                    cut += u
                 marker = opts.get('truncate_char', '[...]')
-                v = "'" + inner[:n] + marker + "'"
+                v = "'" + cut + marker + "'"
                 targets += 1
         if (tt in T.Keyword or tt in T.Operator or tt is T.Name.Builtin) \
                 and not v.isalnum():
@@ -102,6 +119,10 @@ def check(ctx, text, opts, meta, alone):
     src = oracles.lex(text)
     want, targets, d10 = expected_stream(src, opts)
     got = oracles.sig(out)
+    if opts.get('truncate_strings') and got != want:
+        alt = expected_stream(src, opts, cut_before=True)[0]
+        if got == alt:
+            want = alt
     for name in ('strip_comments', 'keyword_case', 'identifier_case',
                  'truncate_strings'):
         if opts.get(name):
